@@ -421,6 +421,15 @@ def gen_svc_ops(r, consts, thorough):
             ops.append("timer svc hup")        # SIGHUP path: gids_update cancels and re-sets
     ops.append("timer adv %d 0" % (t + 10 ** 7))
     ops.append("timer adv %d 0" % (t + 10 ** 7 + 5))
+    # the group file is stat()ed and has NOT changed since the last refresh (mtime 0 <= last update): the refresh is skipped, the re-arm is not
+    for mtime in (0, 2 ** 31 - 1):
+        ops += ["timer reset", "timer adv 1000 0", "timer svc gids 5 1 %d" % mtime]
+        t = 1000
+        for _ in range(12 if not thorough else 60):
+            t += r.choice([4, 5, 5, 6, 11])
+            ops.append("timer adv %d 0" % t)
+            if r.random() < .15:
+                ops.append("timer svc hup")
     ops += ["timer reset", "timer svc gids 0", "timer adv 100 0"]      # interval 0: one update, no recurrence required
     return ops
 
